@@ -1,6 +1,7 @@
 CONSTANTS
   Classes <- ClassesDef
   MaxLen = 3
+  Budget = 1
 INIT Init
 NEXT Next
 INVARIANTS OptionalOmitted Emit
